@@ -784,20 +784,47 @@ Proof.
         intros g e Hi. eapply Hhd. right. eassumption.
 Qed.
 
-(* ------------------------------------------------------------------ the two unlicensed differences *)
-(* (1) await model.trigger(<unknown name>) on a state that ignores invalid triggers: the synchronous
-   machine returns False, the value returned by the asynchronous one cannot be awaited *)
-Definition mc_unknown : machine :=
-  mkMachine [(0, mkSdef [] [] false (Some true))] [] [] [] [] [] [] [] false false.
+(* ------------------------------------------------------------------ unknown event names *)
+(* await model.trigger(<unknown name>): AsyncMachine._get_trigger hands through what
+   Machine._get_trigger does — False on a state that ignores invalid triggers, AttributeError
+   otherwise (ValueError for an unregistered state), no callback at all; for ANY behaviour *)
+Lemma unknown_event_same mc rp susp c e p s :
+  lookup (m_events mc) e = None ->
+  let a := atrigger mc rp susp c e s in
+  let f := trigger mc (ev_of rp) c e p s in
+  fst (fst a) = [] /\ fst (fst f) = [] /\ snd (fst a) = snd (fst f) /\ snd a = aresult_of (snd f).
+Proof.
+  intros L. unfold atrigger, trigger. rewrite L. unfold bind, get. cbn [length Nat.add].
+  destruct (get_state mc s) as [sd|]; [destruct (ignores mc sd)|]; cbn; auto.
+Qed.
 
-Lemma unknown_event_differs :
+(* by name, whether or not the machine knows the event *)
+Lemma flat_sim_any_name mc rp susp c e p s :
+  no_raise_rp rp ->
+  let a := atrigger mc rp susp c e s in
+  let f := trigger mc (ev_of rp) c e p s in
+  stage_view (fst (fst a)) = fst (fst f) /\ snd (fst a) = snd (fst f) /\ snd a = aresult_of (snd f).
+Proof.
+  intros NR. destruct (lookup (m_events mc) e) as [ts|] eqn:L.
+  - eapply flat_sim_named; eassumption.
+  - destruct (unknown_event_same mc rp susp c e p s L) as (H1&H2&H3&H4).
+    cbv zeta. rewrite H1, H2. auto.
+Qed.
+
+Definition mc_unknown : machine :=
+  mkMachine [(0, mkSdef [] [] false (Some true)); (1, mkSdef [] [] false None)] [] [] [] [] [] [] [] false false.
+
+Lemma unknown_event_example :
   let rp := fun _ : cbid => mkReply true None [] in
   let c := mkCtx 0 0 false in
   snd (trigger mc_unknown (ev_of rp) c 7 0 0) = inr false /\
-  snd (atrigger mc_unknown rp (fun _ => 0) c 7 0) = AwNotAwaitable.
+  snd (atrigger mc_unknown rp (fun _ => 0) c 7 0) = AwRet false /\
+  snd (trigger mc_unknown (ev_of rp) c 7 0 1) = inl AttributeError /\
+  snd (atrigger mc_unknown rp (fun _ => 0) c 7 1) = AwExn AttributeError.
 Proof. vm_compute. auto. Qed.
 
-(* (2) a callback raises and another one is registered after it in the same list: the synchronous
+(* ------------------------------------------------------------------ the unlicensed difference *)
+(* a callback raises and another one is registered after it in the same list: the synchronous
    machine never calls the second, the asynchronous one has already scheduled it *)
 Definition mc_raise : machine :=
   mkMachine [(0, mkSdef [] [] false None)]
